@@ -380,9 +380,6 @@ func (fm *FontMap) FindSystemFonts(family string) []Location {
 // SetQuery set the families and aspect required, influencing subsequent
 // [ResolveFace] calls. See also [SetScript].
 func (fm *FontMap) SetQuery(query Query) {
-	if len(query.Families) == 0 {
-		query.Families = []string{""}
-	}
 	fm.query = query
 	fm.built = false
 }
